@@ -33,13 +33,46 @@ use crate::{
 
 pub const LEVEL: &str = "fault_enumeration";
 
-fn idx3(b0: bool, b1: bool, b2: bool) -> u8 {
-    u8::from(b0) | (u8::from(b1) << 1) | (u8::from(b2) << 2)
+type UV = [Fp61BitPrime; 4];
+
+fn dotv(u: &UV, v: &UV) -> Fp61BitPrime {
+    (0..4).fold(<Fp61BitPrime as crate::secret_sharing::SharedValue>::ZERO, |acc, i| acc + u[i] * v[i])
 }
 
-fn dot(u: u8, v: u8) -> Fp61BitPrime {
-    let (u, v) = (&TABLE_U[u], &TABLE_V[v]);
-    (0..4).fold(<Fp61BitPrime as crate::secret_sharing::SharedValue>::ZERO, |acc, i| acc + u[i] * v[i])
+type A256 = BitArr!(for 256, in u8, Lsb0);
+
+fn arr_from(f: impl Fn(usize) -> bool) -> A256 {
+    let mut a = A256::ZERO;
+    for i in 0..256 {
+        a.set(i, f(i));
+    }
+    a
+}
+
+fn zero_block() -> MultiplicationInputsBlock {
+    MultiplicationInputsBlock { x_left: A256::ZERO, x_right: A256::ZERO, y_left: A256::ZERO, y_right: A256::ZERO, prss_left: A256::ZERO, prss_right: A256::ZERO, z_right: A256::ZERO }
+}
+
+/// The u-vector (g1..g4) the code assigns to the intermediates (a, c, e) and the v-vector
+/// (h1..h4) it assigns to (b, d, f): obtained through the code's own conversion of a block with
+/// one populated position, followed by its own table lookup. How the three bits are encoded as
+/// a table index (and in which order the table rows are stored) is NOT part of the oracle - only
+/// the field elements that reach the proof are.
+fn u_of(a: bool, c: bool, e: bool) -> UV {
+    // verifier view of the prover on its right: (a, c, e) = (x_right, y_right, x_right*y_right ^ z_right ^ prss_right)
+    let mut b = zero_block();
+    b.x_right.set(0, a);
+    b.y_right.set(0, c);
+    b.z_right.set(0, (a & c) ^ e);
+    TABLE_U[b.table_indices_from_right_prover()[0]]
+}
+fn v_of(b_: bool, d: bool, f: bool) -> UV {
+    // verifier view of the prover on its left: (b, d, f) = (y_left, x_left, prss_left)
+    let mut b = zero_block();
+    b.y_left.set(0, b_);
+    b.x_left.set(0, d);
+    b.prss_left.set(0, f);
+    TABLE_V[b.table_indices_from_left_prover()[0]]
 }
 
 // (a) ---------------------------------------------------------------------------------------
@@ -49,7 +82,7 @@ fn table_identity(_env: &Env, src: &mut Src<'_>) -> CaseResult {
     let bit = |k: u32| (i >> k) & 1 == 1;
     let (a, b, c, d, e, f) = (bit(0), bit(1), bit(2), bit(3), bit(4), bit(5));
     let consistent = e == ((a & b) ^ (c & d) ^ f);
-    let s = dot(idx3(a, c, e), idx3(b, d, f));
+    let s = dotv(&u_of(a, c, e), &v_of(b, d, f));
     let half = Fp61BitPrime::MINUS_ONE_HALF;
     let cj = json!({"a": a, "b": b, "c": c, "d": d, "e": e, "f": f});
     if consistent && s != half {
@@ -66,18 +99,8 @@ fn table_identity(_env: &Env, src: &mut Src<'_>) -> CaseResult {
 
 // (b) ---------------------------------------------------------------------------------------
 
-type A256 = BitArr!(for 256, in u8, Lsb0);
-
-fn arr_from(f: impl Fn(usize) -> bool) -> A256 {
-    let mut a = A256::ZERO;
-    for i in 0..256 {
-        a.set(i, f(i));
-    }
-    a
-}
-
-/// per-bit reference of the three conversion functions
-fn ref_indices(b: &MultiplicationInputsBlock) -> (Vec<(u8, u8)>, Vec<u8>, Vec<u8>) {
+/// per-bit reference of the three conversion functions, as table VALUES
+fn ref_values(b: &MultiplicationInputsBlock) -> (Vec<(UV, UV)>, Vec<UV>, Vec<UV>) {
     let mut prover = vec![];
     let mut from_right = vec![];
     let mut from_left = vec![];
@@ -85,25 +108,35 @@ fn ref_indices(b: &MultiplicationInputsBlock) -> (Vec<(u8, u8)>, Vec<u8>, Vec<u8
         let (xl, xr, yl, yr, pl, pr, zr) = (b.x_left[i], b.x_right[i], b.y_left[i], b.y_right[i], b.prss_left[i], b.prss_right[i], b.z_right[i]);
         // prover: (a,b,c,d,f) = (x_left, y_right, y_left, x_right, prss_right), e = ab ^ cd ^ f
         let e = (xl & yr) ^ (yl & xr) ^ pr;
-        prover.push((idx3(xl, yl, e), idx3(yr, xr, pr)));
+        prover.push((u_of(xl, yl, e), v_of(yr, xr, pr)));
         // verifier for the prover on its right: (a,c,e) = (x_right, y_right, x_right*y_right ^ z_right ^ prss_right)
-        from_right.push(idx3(xr, yr, (xr & yr) ^ zr ^ pr));
+        from_right.push(u_of(xr, yr, (xr & yr) ^ zr ^ pr));
         // verifier for the prover on its left: (b,d,f) = (y_left, x_left, prss_left)
-        from_left.push(idx3(yl, xl, pl));
+        from_left.push(v_of(yl, xl, pl));
     }
     (prover, from_right, from_left)
 }
 
+/// the table values the code looks up for a block: (prover u, prover v), u from the right prover, v from the left prover
+fn code_values(b: &MultiplicationInputsBlock) -> (Vec<(UV, UV)>, Vec<UV>, Vec<UV>) {
+    (
+        b.table_indices_prover().into_iter().map(|(iu, iv)| (TABLE_U[iu], TABLE_V[iv])).collect(),
+        b.table_indices_from_right_prover().into_iter().map(|iu| TABLE_U[iu]).collect(),
+        b.table_indices_from_left_prover().into_iter().map(|iv| TABLE_V[iv]).collect(),
+    )
+}
+
 fn check_block(b: &MultiplicationInputsBlock, cj: serde_json::Value) -> Result<(), CaseErr> {
-    let (p, r, l) = ref_indices(b);
-    if b.table_indices_prover() != p {
-        return Err(violation("block-indices:prover", "table_indices_prover differs from the per-bit reference", cj));
+    let (p, r, l) = ref_values(b);
+    let (cp, cr, cl) = code_values(b);
+    if cp != p {
+        return Err(violation("block-indices:prover", "the table values selected by table_indices_prover differ from the per-bit reference", cj));
     }
-    if b.table_indices_from_right_prover() != r {
-        return Err(violation("block-indices:from-right", "table_indices_from_right_prover differs from the per-bit reference", cj));
+    if cr != r {
+        return Err(violation("block-indices:from-right", "the table values selected by table_indices_from_right_prover differ from the per-bit reference", cj));
     }
-    if b.table_indices_from_left_prover() != l {
-        return Err(violation("block-indices:from-left", "table_indices_from_left_prover differs from the per-bit reference", cj));
+    if cl != l {
+        return Err(violation("block-indices:from-left", "the table values selected by table_indices_from_left_prover differ from the per-bit reference", cj));
     }
     Ok(())
 }
@@ -203,13 +236,13 @@ fn three_party_consistency(_env: &Env, src: &mut Src<'_>) -> CaseResult {
     let verdict = |blocks: &[MultiplicationInputsBlock]| -> Option<(usize, usize)> {
         for p in 0..3 {
             let (l, r) = ((p + 2) % 3, (p + 1) % 3);
-            let pi = blocks[p].table_indices_prover();
-            let li = blocks[l].table_indices_from_right_prover();
-            let ri = blocks[r].table_indices_from_left_prover();
+            let (pv, _, _) = code_values(&blocks[p]);
+            let (_, lv, _) = code_values(&blocks[l]);
+            let (_, _, rv) = code_values(&blocks[r]);
             for i in 0..256 {
                 // the proof shows sum over positions of u(P or L) . v(P or R) = -m/2; a position
                 // where verifier views differ from the prover's, or where the sum is not -1/2, fails
-                if pi[i].0 != li[i] || pi[i].1 != ri[i] || dot(li[i], ri[i]) != half {
+                if pv[i].0 != lv[i] || pv[i].1 != rv[i] || dotv(&lv[i], &rv[i]) != half {
                     return Some((p, i));
                 }
             }
@@ -838,11 +871,11 @@ pub fn deep(_env: &Env, src: &mut Src<'_>) -> CaseResult {
 pub fn subs(_env: &Env) -> Vec<Sub> {
     vec![
         Sub::exhaustive("table_identity", 64, 64, table_identity,
-            "all 64 values of (a,b,c,d,e,f): sum_i TABLE_U[idx(a,c,e)][i]*TABLE_V[idx(b,d,f)][i] = -1/2 iff e = ab^cd^f, and +1/2 otherwise"),
+            "all 64 values of (a,b,c,d,e,f): the u-vector the code selects for (a,c,e) and the v-vector it selects for (b,d,f) (through its own conversion of a one-position block and its own table lookup - the index encoding is not part of the oracle) satisfy sum_i u_i*v_i = -1/2 iff e = ab^cd^f, and +1/2 otherwise"),
         Sub::exhaustive("block_positions", 256, 256, block_positions,
-            "every position of a 256-bit storage block populated alone with all 128 values of the seven intermediates: the three table-index conversions equal the per-bit reference"),
+            "every position of a 256-bit storage block populated alone with all 128 values of the seven intermediates: the table values selected by the three bulk conversions equal the per-bit reference"),
         Sub::random("three_party_consistency", 300, 3000, 100_000, three_party_consistency,
-            "dense generated three-party views of 256 multiplications (all-zero / all-one / random shares and masks): conversions equal the per-bit reference; prover indices equal the left verifier's u and the right verifier's v and every position sums to -1/2; after flipping one generated (helper, entry, position) bit some table relation fails at exactly that position; distinct by the flipped (helper, entry, position)"),
+            "dense generated three-party views of 256 multiplications (all-zero / all-one / random shares and masks): conversions select the per-bit reference values; the prover's u / v values equal the left verifier's u and the right verifier's v and every position sums to -1/2; after flipping one generated (helper, entry, position) bit some table relation fails at exactly that position; distinct by the flipped (helper, entry, position)"),
         Sub::random("e2e", 40, 3000, 60_000, e2e,
             "TestWorld malicious contexts, Boolean vectors of width {1,3,5,8,16,20,32,64,256}, 1-3 steps per batch, record counts chosen so the bit-multiplication count hits 1, 255/256/257, 2^k, 2^k+-1, 32*8^j(+1), the recursion thresholds 3*4^k (+1, +256, +257) for k=4..6, >8192 (TARGET_PROOF_SIZE=8192 in test builds) or random; single-shot validate() or validate_record via validated_seq_join with 2^0..2^7 records per batch. Honest run must be accepted by all helpers with the right product; then one fault - a flipped bit of one transmitted z message (interceptor), optionally together with the same bit of the sender's own recorded PRSS mask (a prover whose own view explains its lie), or a flipped bit of one recorded intermediate (x/y/prss/z entry pushed with a flipped bit) - must make at least one helper return DZKPValidationFailed/ParallelDZKPValidationFailed; non-trivial = fault applied inside the populated part")
         .shrink_iters(12),
